@@ -553,6 +553,15 @@ def r44(rep: Report, ctx: Ctx) -> None:
     ok = len(binds) == 2 and any(isinstance(b.value, ast.Dict)
                                  and not b.value.keys for b in binds) \
         and wf is not None
+    # "fresh" means created in every iteration of the loop over the
+    # workflows: a dict created once before the loop is handed on from one
+    # workflow to the next and collects the events of all of them
+    if ok:
+        fresh = [b for b in binds if isinstance(b.value, ast.Dict)][0]
+        loops = [l for l in ast.walk(top.node) if isinstance(l, ast.For)
+                 and any(x is sv[0] for x in ast.walk(l))] if sv else []
+        ok = bool(loops) and any(x is fresh.stmt
+                                 for x in ast.walk(loops[-1]))
     rep.ob("R4.4", "per workflow: the loaded model or a fresh dict", ok,
            fi=top, node=binds[0].stmt if binds else top.node,
            detail="; ".join(unparse(b.stmt)[:50] for b in binds))
